@@ -504,6 +504,83 @@ pub fn line_field_short(prop: &'static str, maxlen: u32) -> Space {
     )
 }
 
+/// LINE-NUMERIC: complete sweeps of the numeric fields outside the small menus: every count 0..=255
+/// (as first fragment and as final fragment), every number 0..=255 of a 255-fragment group, every
+/// sequence id 0..=255 (and 256..=300), each in 4 spellings (plain, 1, 3 and 9 leading zeros).
+pub fn line_numeric(prop: &'static str) -> Space {
+    Space::new(
+        "LINE-NUMERIC",
+        "counts 0..=300 x {number 1, number = count} ; numbers 0..=300 of a 255-group ; sequence ids 0..=300 on an unfragmented and on a first-fragment sentence ; each in 4 spellings (0, 1, 3, 9 leading zeros) x decode",
+        301 * 5 * 4 * 2,
+        move |i, l| {
+            let mut r = Radix(i);
+            let decode = r.take(2) == 1;
+            let zeros = [0usize, 1, 3, 9][r.take(4) as usize];
+            let which = r.take(5);
+            let v = r.0;
+            let num = format!("{}{}", "0".repeat(zeros), v).into_bytes();
+            let mut payload = vec![b'0'; 28];
+            payload[0] = b'1';
+            let mut m = Mk::new(1, 1, b"", &payload, 0);
+            match which {
+                0 => {
+                    m.n = num;
+                    m.k = b"1".to_vec();
+                }
+                1 => {
+                    m.n = num.clone();
+                    m.k = num;
+                }
+                2 => {
+                    m.n = b"255".to_vec();
+                    m.k = num;
+                }
+                3 => m.id = num,
+                _ => {
+                    m.n = b"2".to_vec();
+                    m.id = num;
+                }
+            }
+            judge_line(l, &m.render(), decode, prop);
+        },
+    )
+}
+
+/// LINE-LENGTHS: every payload length 1..=520, every channel-field length 0..=300, every tag-block
+/// length 0..=300 and every trailing-garbage length 0..=300 (total line lengths across 255/256 and the
+/// 384-byte capacity), on an unfragmented and on a first-fragment sentence.
+pub fn line_lengths(prop: &'static str) -> Space {
+    Space::new(
+        "LINE-LENGTHS",
+        "payload length 1..=520 ; channel field length 0..=300 ; tag block length 0..=300 ; trailing bytes 0..=300 ; x {unfragmented, first fragment} x decode",
+        (520 + 301 * 3) * 2 * 2,
+        move |i, l| {
+            let mut r = Radix(i);
+            let decode = r.take(2) == 1;
+            let first = r.take(2) == 1;
+            let k = r.0 as usize;
+            let mut payload = vec![b'0'; 28];
+            payload[0] = b'1';
+            let mut m = if first { Mk::new(2, 1, b"4", &payload, 0) } else { Mk::new(1, 1, b"", &payload, 0) };
+            let mut tail_extra = 0usize;
+            if k < 520 {
+                let mut p = vec![b'0'; k + 1];
+                p[0] = b'>'; // type 14 (safety text): decodes at every length >= 8 characters
+                m.payload = p;
+            } else if k < 520 + 301 {
+                m.chan = vec![b'B'; k - 520];
+            } else if k < 520 + 602 {
+                m.tag = Some(vec![b't'; k - 520 - 301]);
+            } else {
+                tail_extra = k - 520 - 602;
+            }
+            let mut line = m.render();
+            line.extend(std::iter::repeat(b'~').take(tail_extra));
+            judge_line(l, &line, decode, prop);
+        },
+    )
+}
+
 pub const STRUCT16: [u8; 16] = [b'!', b'$', b'\\', b',', b'*', b'0', b'1', b'6', b'9', b'A', b'G', b'w', b'x', b'\r', 0x00, 0xff];
 
 /// LINE-MUT2: every pair of positions × 16² structural bytes on a few seeds.
@@ -813,6 +890,7 @@ pub fn c02(tier: Tier) -> Vec<Space> {
         line_field_edit("C02"),
         line_seeds("C02"),
         line_field_short("C02", if tier == Tier::Quick { 3 } else { 4 }),
+        line_lengths("C02"),
     ];
     if tier == Tier::Thorough {
         v.push(line_mut2("C02", 10));
@@ -825,6 +903,8 @@ pub fn c07(tier: Tier) -> Vec<Space> {
         line_seeds("C07"),
         line_grammar("C07", tier == Tier::Thorough),
         line_field_short("C07", if tier == Tier::Quick { 3 } else { 4 }),
+        line_numeric("C07"),
+        line_lengths("C07"),
         line_addr("C07", tier == Tier::Thorough),
         line_mut1("C07"),
         line_typechar("C07"),
@@ -839,6 +919,8 @@ pub fn c08(tier: Tier) -> Vec<Space> {
         line_grammar("C08", tier == Tier::Thorough),
         line_short("C08", if tier == Tier::Quick { 5 } else { 7 }),
         line_field_short("C08", if tier == Tier::Quick { 3 } else { 4 }),
+        line_numeric("C08"),
+        line_lengths("C08"),
         line_cksum("C08"),
     ];
     if tier == Tier::Thorough {
